@@ -13,6 +13,7 @@ import (
 	"encoding/json"
 	"fmt"
 	"os"
+	"strings"
 	"sync"
 	"testing"
 	"time"
@@ -20,7 +21,9 @@ import (
 	"github.com/bitly/go-simplejson"
 	"github.com/ozontech/file.d/fd"
 	"github.com/ozontech/file.d/pipeline"
+	_ "github.com/ozontech/file.d/plugin/action/split" // registers the real split action
 	"github.com/ozontech/file.d/test"
+	insaneJSON "github.com/ozontech/insane-json"
 	"go.uber.org/atomic"
 )
 
@@ -40,6 +43,7 @@ type c14E2EOut struct {
 	ID   int     `json:"id"`
 	Err  string  `json:"err,omitempty"`
 	R1   string  `json:"r1,omitempty"`
+	RS   string  `json:"rs,omitempty"` // Do invoked for the event as a child spawned by the real split action
 	RB   string  `json:"rb,omitempty"` // Do invoked while the holding action at the end of the chain is busy
 	Cnt  []int32 `json:"cnt,omitempty"` // parallel mode: how many of the reps copies of each event reached Do
 	Reps int     `json:"reps,omitempty"`
@@ -49,6 +53,8 @@ type c14E2EOut struct {
 var (
 	c14E2EMu   sync.Mutex
 	c14E2EHits [][]int32
+	// split mode: the chain is [split, rules...]; child events are recognised by their content
+	c14E2ESplitIdx map[string]int
 )
 
 type c14E2EConfig struct{}
@@ -61,6 +67,15 @@ func (p *c14E2EPlugin) Start(_ pipeline.AnyConfig, params *pipeline.ActionPlugin
 func (p *c14E2EPlugin) Stop() {}
 func (p *c14E2EPlugin) Do(e *pipeline.Event) pipeline.ActionResult {
 	c14E2EMu.Lock()
+	if c14E2ESplitIdx != nil {
+		if e.IsChildKind() {
+			if j, ok := c14E2ESplitIdx[e.Root.EncodeToString()]; ok && p.index-1 < len(c14E2EHits) {
+				c14E2EHits[p.index-1][j]++
+			}
+		}
+		c14E2EMu.Unlock()
+		return pipeline.ActionPass
+	}
 	if p.index < len(c14E2EHits) && int(e.Offset) >= 0 && int(e.Offset) < len(c14E2EHits[p.index]) {
 		c14E2EHits[p.index][e.Offset]++
 	}
@@ -113,13 +128,18 @@ func c14E2EFactory() (pipeline.AnyPlugin, pipeline.AnyConfig) {
 //            times, each copy from its own source so that the copies are processed concurrently.
 // busy:      (with reps == 0) the chain is [rules..., holding action]; a run is opened first, then every event is
 //            sent while the holding action is busy, then the run is closed: only opener and closer reach the output.
-func c14E2ERunChunk(rules []*c14E2ERule, evs []string, reps int, busy bool) (outs []*c14E2EOut, err error) {
+// split:     (with reps == 0) the chain is [the real split action, rules...]; ONE parent event {"zz":[events...]} is
+//            sent, split spawns every event of the set as a child event, the children (and the parent) reach the output.
+func c14E2ERunChunk(rules []*c14E2ERule, evs []string, reps int, busy, split bool) (outs []*c14E2EOut, err error) {
 	defer func() {
 		if pv := recover(); pv != nil {
 			err = fmt.Errorf("panic: %v", pv)
 		}
 	}()
 	actions := "["
+	if split {
+		actions += `{"type":"split","field":"zz"},`
+	}
 	for i, r := range rules {
 		if i > 0 {
 			actions += ","
@@ -140,6 +160,11 @@ func c14E2ERunChunk(rules []*c14E2ERule, evs []string, reps int, busy bool) (out
 		opts = append(opts, "parallel")
 		copies = reps
 	}
+	if split {
+		// "perf" only to switch off the test helper's event log, which re-encodes the parent after split
+		// has handed its nodes over to the children
+		opts = append(opts, "perf")
+	}
 	p, input, output := test.NewPipelineMock(nil, opts...)
 	if serr := fd.SetupActions(p, fd.DefaultPluginRegistry, aj, nil); serr != nil {
 		return nil, fmt.Errorf("ctor: %w", serr)
@@ -155,10 +180,35 @@ func c14E2ERunChunk(rules []*c14E2ERule, evs []string, reps int, busy bool) (out
 		left.Store(2)
 		c14E2EHoldN = int64(len(evs))
 	}
+	c14E2EMu.Lock()
+	c14E2ESplitIdx = nil
+	if split {
+		left.Store(int32(len(evs) + 1))
+		c14E2ESplitIdx = make(map[string]int, len(evs))
+		for i, e := range evs {
+			r := insaneJSON.Spawn()
+			if derr := r.DecodeString(e); derr != nil {
+				c14E2EMu.Unlock()
+				return nil, fmt.Errorf("harness: %w", derr)
+			}
+			key := r.EncodeToString()
+			insaneJSON.Release(r)
+			if _, dup := c14E2ESplitIdx[key]; dup {
+				c14E2EMu.Unlock()
+				return nil, fmt.Errorf("harness: duplicate event %s in a set", key)
+			}
+			c14E2ESplitIdx[key] = i
+		}
+	}
+	c14E2EMu.Unlock()
 	output.SetOutFn(func(*pipeline.Event) { left.Dec() })
 	p.Start()
 	if busy {
 		input.In(0, "verif_c14", test.NewOffset(c14E2EHoldN), []byte(evs[0]))
+	}
+	if split {
+		input.In(0, "verif_c14", test.NewOffset(0), []byte(`{"zz":[`+strings.Join(evs, ",")+`]}`))
+		copies = 0
 	}
 	for c := 0; c < copies; c++ {
 		for i, e := range evs {
@@ -242,13 +292,19 @@ func TestVerifC14E2E(t *testing.T) {
 		if par {
 			reps = 2000/len(evs) + 2
 		}
-		outs, err := c14E2ERunChunk(chunk, evs, reps, false)
+		outs, err := c14E2ERunChunk(chunk, evs, reps, false, false)
 		if err == nil && !par {
 			var bouts []*c14E2EOut
-			bouts, err = c14E2ERunChunk(chunk, evs, 0, true)
+			bouts, err = c14E2ERunChunk(chunk, evs, 0, true, false)
 			if err == nil {
 				for i := range outs {
 					outs[i].RB = bouts[i].R1
+				}
+				bouts, err = c14E2ERunChunk(chunk, evs, 0, false, true)
+			}
+			if err == nil {
+				for i := range outs {
+					outs[i].RS = bouts[i].R1
 				}
 			}
 		}
